@@ -124,6 +124,14 @@ Theorem C10_units_ownership_irrelevant : forall neq, neq_laws neq ->
 Proof. exact EqualsSummary.units_ownership_irrelevant. Qed.
 Print Assumptions C10_units_ownership_irrelevant.
 
+(** an import source may be unresolved or resolved to any model object (setModel / resolveImports; clones share it):
+    equality of import sources — hence of imported units / components and of models — depends only on url and id *)
+Theorem C10_import_resolution_irrelevant : forall (a b : isrc) (r1 r2 r1' r2' : resolution),
+  eq_resolved_isrc (a, r1) (b, r2) = eq_resolved_isrc (a, r1') (b, r2')
+  /\ (eq_resolved_isrc (a, r1) (b, r2) = true <-> is_url a = is_url b /\ is_id a = is_id b).
+Proof. exact EqualsSummary.import_resolution_irrelevant. Qed.
+Print Assumptions C10_import_resolution_irrelevant.
+
 (** the instance used as oracle by the check *)
 Theorem C10_equals_ideal_equivalence :
   (forall a, equals_ideal a a = true)
